@@ -59,6 +59,15 @@ CHECKS["C19"] = dict(
   note="Trusted: Coq kernel+VM, closed under the global context; gRPC transport replaced by an in-memory stream; protobuf getters. The SDK is abstract in the theorems so C01/C06/C07 transfer.",
   technique="Coq proof (state machine, induction over request sequences) + exhaustive small-scope differential correspondence", design="6/C19")
 
+CHECKS["C17"] = dict(
+  text="Coq theorems for every list of regional clients, every subset able to generate/wrap and every subset able to decrypt: unwrap succeeds iff some configured region with an "
+       "entry can decrypt; the regional Decrypt attempts are exactly the client order restricted to regions with an entry, stopping at the first success; the first client (preferred) is "
+       "tried first; wrap succeeds iff some region can generate and the envelope holds exactly the generating region plus every region that could wrap; wrap-then-unwrap characterised. "
+       "Tie: both plugins over fake regional KMS clients (v1 and v2 SDK interfaces), incl. v1<->v2 envelope exchange, compared with the model in Coq; monitors: preferred first, data-key plaintext wiped, documented JSON envelope.",
+  note="Trusted: Coq kernel+VM, closed under the global context. Modelled not verified: AWS KMS (per-region success oracle, blobs only the issuing region opens). The non-preferred client order "
+       "(Go map iteration) is observed by a probe call, then fixed in the model.",
+  technique="Coq proof (list induction) + differential correspondence over fakes", design="6/C17")
+
 NOT_APPLICABLE = []
 
 
